@@ -17,10 +17,20 @@ provisional label positions, the undeclared-label set, feed-time and
 emission-time checks, deferral of label-dependent range errors — returns bytes
 if and only if the program is well formed, and then exactly the specification's
 bytes; otherwise it returns an error value and no bytes (`C13_error_no_bytes`).
-`C13_error_*`: the error kinds name real faults.
+`C13_error_*`: the error kinds name real faults:
+* `C13_error_undeclared_labels`: `UndeclaredLabels ls` names — as a set — EXACTLY
+  the labels that operands of the expanded scope mention and the scope (the
+  program itself or a nested include) does not define, and `ls` is not empty;
+* `C13_error_undeclared_macro`: `UndeclaredInstructionMacro n` ⇒ `n` is not an
+  instruction macro of the scope it was invoked in;
+* `C13_error_duplicate_macro`, `C13_error_duplicate_macro_conv`: `DuplicateMacro n`
+  ⇔ (for the scope that reports it) `n` is defined twice.
+Which error is reported when several faults coexist is not specified by the
+property and not claimed here.
 -/
 import EtkVerif.Asm.Refine
 import EtkVerif.Asm.Corollaries
+import EtkVerif.Asm.ErrorKinds
 namespace EtkVerif.C13
 open Asm
 
@@ -102,5 +112,30 @@ theorem C13_error_duplicate_macro (rnd : Nat → Nat) (fuel k : Nat) (ops : RawO
     (h : declareMacros ops.toList [] = .error (.duplicateMacro n)) :
     assemble rnd (fuel + 1) { fresh := k } ops = .error (.duplicateMacro n) := by
   simp [assemble, h]
+
+/-- `UndeclaredLabels ls` names exactly the offending labels of the scope that reports it -/
+theorem C13_error_undeclared_labels (rnd : Nat → Nat) (fuel k : Nat) (ops : RawOps) (ls : List String)
+    (h : assemble rnd fuel { fresh := k } ops = .error (.undeclaredLabels ls)) :
+    ∃ (sub : RawOps) (f k0 k1 : Nat) (ms : List (String × MacroDef)) (items : List Item) (used : List String),
+      SubScope sub ops ∧
+      declareMacros sub.toList [] = .ok ms ∧
+      Spec.flattenAll rnd f ms k0 sub = .ok (items, k1) ∧
+      Spec.mentioned ms items = .ok used ∧
+      ls ≠ [] ∧ ∀ l, l ∈ ls ↔ (l ∈ used ∧ l ∉ Spec.itemLabels items) :=
+  undeclaredLabels_exact rnd fuel k ops ls h
+
+/-- `UndeclaredInstructionMacro n`: `n` is not an instruction macro of the scope it was invoked in -/
+theorem C13_error_undeclared_macro (rnd : Nat → Nat) (fuel k : Nat) (ops : RawOps) (n : String)
+    (h : assemble rnd fuel { fresh := k } ops = .error (.undeclaredInstructionMacro n)) :
+    ∃ (sub : RawOps) (ms : List (String × MacroDef)),
+      SubScope sub ops ∧ declareMacros sub.toList [] = .ok ms ∧
+      ∀ ps body, lookupMacro ms n ≠ some (.instr ps body) :=
+  undeclaredInstructionMacro_provenance rnd fuel k ops n h
+
+/-- `DuplicateMacro n` is only ever reported by a scope that defines `n` twice -/
+theorem C13_error_duplicate_macro_conv (rnd : Nat → Nat) (fuel k : Nat) (ops : RawOps) (n : String)
+    (h : assemble rnd fuel { fresh := k } ops = .error (.duplicateMacro n)) :
+    ∃ sub : RawOps, SubScope sub ops ∧ declareMacros sub.toList [] = .error (.duplicateMacro n) :=
+  duplicateMacro_provenance rnd fuel k ops n h
 
 end EtkVerif.C13
